@@ -106,6 +106,12 @@ func exprStep(step string, c []string) []string {
 		return cat(w("CAST ("), valueOf(c), w("AS INT ) = 1"))
 	case "arith":
 		return cat(valueOf(c), w("+ 1 = 2"))
+	case "case-first-when":
+		return cat(w("CASE WHEN"), c, w("THEN 1 WHEN b = 2 THEN 2 ELSE 0 END = 1"))
+	case "func-first-arg":
+		return cat(w("COALESCE ("), valueOf(c), w(", 1 , 2 ) = 1"))
+	case "in-list-first":
+		return cat(w("b IN ("), valueOf(c), w(", 1 , 2 )"))
 	}
 	core.Fatalf("unknown expression step %s", step)
 	return nil
@@ -133,6 +139,20 @@ func placeIn(pl string, c []string) []string {
 		return cat(w("INSERT INTO t ( a ) VALUES ("), valueOf(c), w(")"))
 	case "update-set":
 		return cat(w("UPDATE t SET a ="), valueOf(c))
+	case "join-on-first":
+		return cat(w("SELECT t . a FROM t JOIN u ON"), c, w("JOIN v ON t . a = v . a"))
+	case "join-on-middle":
+		return cat(w("SELECT t . a FROM t JOIN u ON t . a = u . a LEFT JOIN v ON"), c, w("JOIN z ON t . a = z . a"))
+	case "select-first-item":
+		return cat(w("SELECT"), valueOf(c), w(", a , b FROM t"))
+	case "order-by-first":
+		return cat(w("SELECT a FROM t ORDER BY"), valueOf(c), w(", a DESC"))
+	case "group-by-first":
+		return cat(w("SELECT a FROM t GROUP BY"), valueOf(c), w(", a"))
+	case "insert-first-row":
+		return cat(w("INSERT INTO t ( a ) VALUES ("), valueOf(c), w(") , ( 2 ) , ( 3 )"))
+	case "update-first-set":
+		return cat(w("UPDATE t SET a ="), valueOf(c), w(", b = 2 , c = 3"))
 	}
 	core.Fatalf("unknown placement %s", pl)
 	return nil
@@ -259,7 +279,7 @@ func main() {
 		tier = "quick"
 	}
 	run = core.NewRun("C16", tier, "model_checking")
-	run.Rule = "every case of Injection.tla (8 condition payloads x <= 1 expression step x 10 placements, 2 UNION probing statements, x <= 1 nesting step; thorough: <= 2 expression steps or <= 2 nesting steps) x 2 layouts (4 in the thorough tier) x both letter cases of payload function names x 4 minimum severities; non-trivial = a case with at least one expression or nesting step"
+	run.Rule = "every case of Injection.tla (8 condition payloads x <= 1 expression step (15 kinds) x 17 placements, 2 UNION probing statements, x <= 1 nesting step; thorough: <= 2 expression steps or <= 2 nesting steps) x 2 layouts (4 in the thorough tier) x both letter cases of payload function names x 4 minimum severities; non-trivial = a case with at least one expression or nesting step"
 	run.Assumptions = []string{
 		"findings are compared as sets of (class, severity) pairs: a context such as OR may add a second finding of the same class",
 		"the reference for a payload is the real scan of 'SELECT a FROM t WHERE <payload>', which must contain the documented class and severity",
